@@ -88,6 +88,14 @@ Definition produce (n : nat) (ws : list (list byte)) (failed : bool) : list msg 
   (if failed then [MFail]
    else match tail with [] => [MEnd] | _ :: _ => [MChunk tail; MEnd] end).
 
+(** the body writer PANICS after performing the writes [ws] (a panic in a
+    [Serialize] impl, a [Read] source or the writer closure): the producer thread
+    unwinds, the partially filled buffer is dropped with the sink, no terminal
+    message is sent and both senders drop, i.e. the channel closes after the full
+    chunks *)
+Definition produce_panic (n : nat) (ws : list (list byte)) : list msg :=
+  map MChunk (fst (sink_writes n [] ws)).
+
 (** ** Session *)
 Record session : Set := mkSession { s_rx : list msg; s_look : option chunk; s_done : bool }.
 
@@ -127,6 +135,9 @@ Definition table := option session.
 
 Definition open_handler (n : nat) (ws : list (list byte)) (failed : bool) : table :=
   Some (mkSession (produce n ws failed) None false).
+
+Definition open_panic (n : nat) (ws : list (list byte)) : table :=
+  Some (mkSession (produce_panic n ws) None false).
 
 Definition next_handler (t : table) : resp * table :=
   match t with
@@ -183,7 +194,8 @@ Record c09_case : Set := mkC09 {
   c_zstd : bool;
   c_kind : N;              (* 0 value, 1 typed array, 2 complex array, 3 reader, 4 writer *)
   c_puller : N;            (* 0 blocking, 1 async, 2 WebSocket *)
-  c_cancel_after : N       (* [next] requests before the cancel, on a second stream *)
+  c_cancel_after : N;      (* [next] requests before the cancel, on a second stream *)
+  c_panic : bool           (* the failure (if any) is a panic instead of a returned error *)
 }.
 
 Record c09_obs : Set := mkO09 {
@@ -207,14 +219,16 @@ Definition c09_written (c : c09_case) : list byte :=
   match c_fail c with Some k => firstn (N.to_nat k) (c_data c) | None => c_data c end.
 Definition c09_writes (c : c09_case) : list (list byte) := segment (c_writes c) (c09_written c).
 
+Definition c09_open (c : c09_case) (ws : list (list byte)) : table :=
+  if c09_failed c && c_panic c then open_panic (N.to_nat (c_n c)) ws
+  else open_handler (N.to_nat (c_n c)) ws (c09_failed c).
+
 Definition lenw (ws : list (list byte)) : nat := length (concat ws).
 
 (** the exchange for the writes [ws] reaching the sink; [plain] is what the
     decompression of the stream yields (only used when [c_zstd]) *)
 Definition model_C09_with (c : c09_case) (ws : list (list byte)) (plain : list byte) : c09_obs :=
-  let n := N.to_nat (c_n c) in
-  let failed := c09_failed c in
-  let t0 := open_handler n ws failed in
+  let t0 := c09_open c ws in
   let fuel := S (S (lenw ws)) in
   let (pulls, t1) := raw_pulls fuel t0 in
   let (cpulls, t2) := raw_pulls (N.to_nat (c_cancel_after c)) t0 in
